@@ -56,9 +56,11 @@ class Parser(ParseContext):
     ) -> None:
         self.rulesource = rulesource
 
-        config = ParserConfig.new(config, **settings)
+        # only what the caller states overrides what the rules source
+        # (the grammar's directives) configured: not the built-in defaults
         srcconfig = ParserConfig.new(getattr(rulesource, '_config', None))
         config = srcconfig.override_config(config)
+        config = config.override(**settings)
 
         super().__init__(config=config)
 
